@@ -21,7 +21,7 @@ RULE = ('optional keywords {$TIMESTEP, TIMETICKS, $BTIM, $ETIM, $DATE, $PnV, $Pn
         'fields, blank) x time channel {absent, Time, TIME, time, two} x version; quick = random covering draws, thorough = '
         'more draws; non-trivial = at least one ill-formed keyword or a vendor fallback in play; distinct = digest(file)'
         ' Also: duration read after a selection that leaves no event; zero-event files with a time channel must not raise.')
-ASSUMPTIONS = ['a two-digit-year date that fits both dd-mmm-yy and yy-mmm-dd is read as the standard dd-mmm-yy; nonstandard yy-mmm-dd dates are generated with yy > 31',
+ASSUMPTIONS = ['a two-digit-year date that fits both dd-mmm-yy and yy-mmm-dd is read as the standard dd-mmm-yy; nonstandard yy-mmm-dd dates are generated with yy > 31 or with a first field that is no day of the month (00, 30-Feb, 31-Apr)',
                'unparseable $TIMESTEP: absent time step or the legacy TIMETICKS value are both accepted',
                '1/60 s fractions compared within 1 microsecond', 'zero-event files with a time channel: the value of the duration is not judged, only that reading it does not raise']
 MIN_CHECKS = {'quick': 12000, 'thorough': 300000}
@@ -66,6 +66,11 @@ def gen_date(rng):
     if r < 0.55:
         y = int(rng.integers(1990, 2031))
         return '%02d-%s-%04d' % (d, MON[mo].capitalize() if rng.random() < 0.3 else MON[mo], y), datetime.date(y, mo + 1, d), 'dd-mmm-yyyy'
+    if r < 0.6:
+        # yy-mmm-dd whose first field is at most 31 but is no day of that month (year 2000; the 30th/31st of a short month):
+        # the standard dd-mmm-yy reading does not exist, so the accepted nonstandard reading applies
+        yy, mo = [(0, mo), (0, mo), (31, int(rng.choice([1, 3, 5, 8, 10]))), (30, 1)][int(rng.integers(4))]
+        return '%02d-%s-%02d' % (yy, MON[mo], d), datetime.date(2000 + yy, mo + 1, d), 'yy-mmm-dd:not-a-day'
     if r < 0.65:
         yy = int(rng.integers(32, 100))
         return '%02d-%s-%02d' % (yy, MON[mo], d), datetime.date(1900 + yy if yy >= 69 else 2000 + yy, mo + 1, d), 'yy-mmm-dd'
